@@ -10,6 +10,35 @@ use std::collections::BTreeMap;
 use std::sync::Arc;
 use std::time::Duration;
 
+thread_local! {
+	/// handles of streams that have yielded their end and are still held by the application (everything here runs on one thread)
+	static ENDED: std::cell::RefCell<Vec<(String, jsonrpsee_core::client::Subscription<Value>)>> = const { std::cell::RefCell::new(Vec::new()) };
+}
+fn keep_ended(h: &str, s: Option<jsonrpsee_core::client::Subscription<Value>>) {
+	if let Some(s) = s {
+		ENDED.with(|e| e.borrow_mut().push((h.to_string(), s)));
+	}
+}
+/// the application lets go of an ended handle (of `h`, or of any one when `h` is None)
+fn drop_ended(h: Option<&str>, tracer: &Tracer) -> bool {
+	let taken = ENDED.with(|e| {
+		let mut e = e.borrow_mut();
+		let i = match h {
+			Some(h) => e.iter().position(|(x, _)| x == h),
+			None => if e.is_empty() { None } else { Some(0) },
+		};
+		i.map(|i| e.remove(i))
+	});
+	match taken {
+		Some((h, s)) => {
+			drop(s);
+			tracer.ev(json!({"ev": "SubDropEnded", "h": h}));
+			true
+		}
+		None => false,
+	}
+}
+
 #[derive(Clone)]
 pub struct Group {
 	pub name: &'static str,
@@ -172,6 +201,7 @@ async fn scenario(g: &Group, rng: &mut StdRng, sc: usize, panics: &Arc<parking_l
 	let string_ids = sc % 3 == 2;
 	let rig = build(g.max_queue, g.buf_cap, string_ids, Duration::from_secs(4), sc as u64 + seed());
 	let tracer = rig.tracer.clone();
+	ENDED.with(|e| e.borrow_mut().clear());
 	tracer.ev(json!({"ev": "Reset", "sc": sc, "group": g.name, "string_ids": string_ids}));
 	let mut slots: BTreeMap<String, SubSlot> = BTreeMap::new();
 	for (h, k, _) in &g.ops {
@@ -280,7 +310,11 @@ async fn scenario(g: &Group, rng: &mut StdRng, sc: usize, panics: &Arc<parking_l
 				let _ = rig.peer_tx.send(PeerItem::Text(text, m));
 			}
 		} else if roll < 86 {
-			// the application touches a stream it holds
+			// the application touches a stream it holds - or lets go of one that has ended a while ago
+			if rng.random_range(0..3) == 0 && drop_ended(None, &tracer) {
+				settle(rng.random_range(0..4)).await;
+				continue;
+			}
 			let held: Vec<String> = slots.iter().filter(|(_, s)| s.lock().is_some()).map(|(h, _)| h.clone()).collect();
 			if !held.is_empty() {
 				let h = held[rng.random_range(0..held.len())].clone();
@@ -295,7 +329,7 @@ async fn scenario(g: &Group, rng: &mut StdRng, sc: usize, panics: &Arc<parking_l
 							Some(None) => {
 								let lagged = matches!(s.close_reason(), Some(jsonrpsee_core::client::SubscriptionCloseReason::Lagged));
 								tracer.ev(json!({"ev": "SubEnd", "h": h, "lagged": lagged}));
-								*gd = None;
+								keep_ended(&h, gd.take());
 							}
 							None => {}
 						}
@@ -351,7 +385,9 @@ async fn scenario(g: &Group, rng: &mut StdRng, sc: usize, panics: &Arc<parking_l
 }
 
 async fn wind_down(rig: &Rig, tracer: &Tracer, tasks: Vec<tokio::task::JoinHandle<()>>, slots: &BTreeMap<String, SubSlot>, panics: &Arc<parking_lot::Mutex<Vec<String>>>) {
-	// ---- wind down: let everything run, look at the tables, then end the connection if anything is still open
+	// ---- wind down: the application lets go of the ended handles it still has; let everything run, look at the tables, then end
+	// the connection if anything is still open
+	while drop_ended(None, tracer) {}
 	quiet(rig, tracer).await;
 	if rig.client.is_connected() {
 		// (an armed send fault that never fired leaves the connection up: end it from the peer's side)
@@ -415,7 +451,7 @@ fn stream_step(what: &str, h: &str, slots: &BTreeMap<String, SubSlot>, tracer: &
 				Some(None) => {
 					let lagged = matches!(s.close_reason(), Some(jsonrpsee_core::client::SubscriptionCloseReason::Lagged));
 					tracer.ev(json!({"ev": "SubEnd", "h": h, "lagged": lagged}));
-					*gd = None;
+					keep_ended(h, gd.take());
 				}
 				None => {}
 			}
@@ -489,6 +525,7 @@ async fn scripted(g: &Group, rng: &mut StdRng, sc: usize, script: &Value, panics
 	let string_ids = sc % 3 == 2;
 	let rig = build(g.max_queue, g.buf_cap, string_ids, Duration::from_secs(4), sc as u64 + seed());
 	let tracer = rig.tracer.clone();
+	ENDED.with(|e| e.borrow_mut().clear());
 	tracer.ev(json!({"ev": "Reset", "sc": sc, "group": g.name, "string_ids": string_ids, "scripted": true}));
 	let mut slots: BTreeMap<String, SubSlot> = BTreeMap::new();
 	for (h, k, _) in &g.ops {
@@ -545,6 +582,9 @@ async fn scripted(g: &Group, rng: &mut StdRng, sc: usize, script: &Value, panics
 			"fault" if !faulted => {
 				faulted = true;
 				inject(step["f"].as_str().unwrap(), &rig, &tracer);
+			}
+			"dropEnded" => {
+				drop_ended(step["h"].as_str(), &tracer);
 			}
 			"abandon" => {
 				if let Some(ab) = abandon.remove(step["h"].as_str().unwrap()) {
